@@ -258,6 +258,8 @@ class ParseContext(ParserEngine):
 
     @contextmanager
     def nameset(self, name: str) -> Any:
+        # NOTE: binds the node of its own expression, never an earlier one
+        self.state.last_node = None
         yield
         self.state.nameset(name)
 
@@ -265,6 +267,8 @@ class ParseContext(ParserEngine):
 
     @contextmanager
     def nameadd(self, name: str) -> Any:
+        # NOTE: binds the node of its own expression, never an earlier one
+        self.state.last_node = None
         yield
         self.state.nameadd(name)
 
@@ -272,11 +276,15 @@ class ParseContext(ParserEngine):
 
     @contextmanager
     def result(self) -> Any:
+        # NOTE: binds the node of its own expression, never an earlier one
+        self.state.last_node = None
         yield
         self.state.nameset(_AT_)
 
     @contextmanager
     def resultadd(self) -> Any:
+        # NOTE: binds the node of its own expression, never an earlier one
+        self.state.last_node = None
         yield
         self.state.nameadd(_AT_)
 
